@@ -6,7 +6,7 @@ use std::time::Duration;
 
 use super::super::{co_io_result, IoData};
 #[cfg(feature = "io_cancel")]
-use crate::coroutine_impl::co_cancel_data;
+use crate::coroutine_impl::co_cancel_handle;
 use crate::coroutine_impl::{is_coroutine, CoroutineImpl, EventSource};
 use crate::io::AsIoData;
 use crate::os::unix::net::UnixDatagram;
@@ -66,8 +66,10 @@ impl<'a> UnixRecvFrom<'a> {
 impl EventSource for UnixRecvFrom<'_> {
     fn subscribe(&mut self, co: CoroutineImpl) {
         #[cfg(feature = "io_cancel")]
-        let cancel = co_cancel_data(&co);
-        let io_data = self.io_data;
+        let cancel = co_cancel_handle(&co);
+        // keep the event data alive: once the coroutine is published it may be resumed
+        // by another worker at once, finish and close the socket
+        let io_data = (*self.io_data).clone();
 
         #[cfg(feature = "io_timeout")]
         if let Some(dur) = self.timeout {
@@ -86,7 +88,7 @@ impl EventSource for UnixRecvFrom<'_> {
         #[cfg(feature = "io_cancel")]
         {
             // register the cancel io data
-            cancel.set_io((*io_data).clone());
+            cancel.set_io(io_data.clone());
             // re-check the cancel status
             if cancel.is_canceled() {
                 unsafe { cancel.cancel() };
